@@ -16,15 +16,6 @@ static const InstructionInfo instruction_table[256];
 
 #define MINSZ(a, b) ((a) < (b) ? (a) : (b))
 
-/* In witness mode (tools/vc.py, after a refutation) the harness allocates the
- * inputs itself from named in_* globals so that the counterexample can be read
- * from the trace and replayed natively; the pointer precondition then only has
- * to say "valid", the harness having made the objects fresh and exact-sized. */
-#ifdef VERIF_WITNESS
-#define VERIF_FRESH(p, n) __CPROVER_r_ok(p, n)
-#else
-#define VERIF_FRESH(p, n) __CPROVER_is_fresh(p, n)
-#endif
 
 /* ---- contracts on the static little-endian helpers ---- */
 static void write_u16(uint8_t *buf, uint16_t val)
